@@ -566,7 +566,7 @@ Proof.
     rewrite E5.
     destruct (desc_right_spine hb 0 0 0 (Z.to_nat (2 ^ (lg + 1) - x - 1)) ltac:(unfold hb; lia)) as (c & D).
     rewrite Z2Nat.id in D by lia. replace (0 + tsize hb - (2 ^ (lg + 1) - x - 1)) with x in D by lia.
-    rewrite <- Spine in D. eexists _, _, c. split; [exact D|]. f_equal. lia.
+    rewrite <- Spine in D. eexists _, _, c. split; [exact D|]. reflexivity.
 Qed.
 
 Theorem rll_from_node_index_desc x : 1 <= x < 2 ^ 64 ->
@@ -583,4 +583,122 @@ Proof.
   rewrite E in E'. injection E' as <- <- <-.
   destruct (rll_from_node_index_desc x ltac:(lia)) as (a & b & c & D' & R). rewrite D in D'. injection D' as <- <- <-.
   exact R.
+Qed.
+
+(* ================================================================== peaks *)
+Lemma forest_from_skip d : forall k n o l, 0 <= n < tleafs k -> forest_from (d + k) n o l = forest_from k n o l.
+Proof.
+  induction d as [|d IH]; intros k n o l Hn; [reflexivity|].
+  change (S d + k)%nat with (S (d + k)). cbn [forest_from].
+  pose proof (tleafs_mono k (d + k) ltac:(lia)).
+  destruct (Z.leb_spec (tleafs (d + k)) n); [lia|]. apply IH. exact Hn.
+Qed.
+
+Definition peak_pair (t : ptree) : Z * Z := (Z.of_nat (pt_height t), pt_root t).
+
+Lemma peaks_loop_spec k : forall fuel m o l, (k < fuel)%nat -> 0 <= m < tleafs k -> 0 <= o -> o + tsize k < 2 ^ 64 ->
+  peaks_loop fuel (o + ncount m) (Z.of_nat k) (o + tsize k) = Some (map peak_pair (forest_from k m o l)).
+Proof.
+  induction k as [|k IH]; intros fuel m o l Hf Hm Ho Hb.
+  - destruct fuel as [|f]; [lia|]. reflexivity.
+  - destruct fuel as [|f]; [lia|]. cbn [peaks_loop forest_from].
+    destruct (Z.eqb_spec (Z.of_nat (S k)) 0); [lia|].
+    pose proof (ncount_lt_tsize (S k) m Hm) as Hlt.
+    pose proof (tsize_lt64_inv (S k) ltac:(lia)) as H63.
+    assert (P2 : 2 ^ Z.of_nat (S k) = tsize k + 1) by (rewrite <- tleafs_pow, tleafs_S, tsize_tleafs; lia).
+    pose proof (tsize_pos k) as Hp.
+    rewrite tsize_S, tleafs_S in *.
+    rewrite Z.gtb_ltb. destruct (Z.ltb_spec (o + ncount m) (o + (2 * tsize k + 1))); [|lia].
+    destruct (left_child_val (o + (2 * tsize k + 1)) (Z.of_nat (S k)) ltac:(lia) ltac:(lia)) as [-> ->].
+    rewrite P2. replace (o + (2 * tsize k + 1) - (tsize k + 1)) with (o + tsize k) by lia.
+    assert (Eh : wsub 32 (Z.of_nat (S k)) 1 = Z.of_nat k) by (rewrite wsub32_small by (pow_lits; lia); lia).
+    rewrite Eh. unfold sub_ok. destruct (Z.leb_spec 1 (Z.of_nat (S k))); [|lia].
+    destruct (Z.leb_spec (tleafs k) m) as [Hbit|Hbit].
+    + pose proof (ncount_split k m ltac:(lia)) as Hs.
+      pose proof (ncount_nonneg (m - tleafs k) ltac:(lia)).
+      destruct (Z.leb_spec (o + tsize k) (o + ncount m)); [|lia].
+      assert (P3 : 2 ^ (Z.of_nat k + 1) = tsize k + 1) by (rewrite <- P2; f_equal; lia).
+      destruct (right_sibling_val (o + tsize k) (Z.of_nat k) ltac:(lia) ltac:(lia) ltac:(lia)) as [-> ->].
+      rewrite P3. replace (o + tsize k + (tsize k + 1) - 1) with (o + tsize k + tsize k) by lia.
+      replace (o + ncount m) with (o + tsize k + ncount (m - tleafs k)) by lia.
+      rewrite (IH f (m - tleafs k) (o + tsize k) (l + tleafs k)) by lia.
+      cbn [map]. unfold peak_pair at 2, pt_root. cbn [pt_height pt_offset]. reflexivity.
+    + pose proof (ncount_lt_tsize k m ltac:(lia)).
+      destruct (Z.leb_spec (o + tsize k) (o + ncount m)); [lia|].
+      apply IH; lia.
+Qed.
+
+Lemma height_interval_unique H a v : tleafs H <= v <= tsize H -> tleafs a <= v <= tsize a -> H = a.
+Proof.
+  intros HH Ha. rewrite !tsize_tleafs in *.
+  destruct (lt_eq_lt_dec H a) as [[L|E]|L]; [|exact E|].
+  - pose proof (tleafs_mono (S H) a L). rewrite tleafs_S in *. lia.
+  - pose proof (tleafs_mono (S a) H L). rewrite tleafs_S in *. lia.
+Qed.
+
+Lemma ncount_tleafs a : ncount (tleafs a) = tsize a.
+Proof.
+  unfold ncount. rewrite tsize_tleafs. rewrite tleafs_pow. rewrite count_ones_pow2. reflexivity.
+Qed.
+
+Lemma ncount_mono i n : 0 <= i <= n -> ncount i <= ncount n.
+Proof. intros. pose proof (ncount_mono_strict i (n - i) ltac:(lia) ltac:(lia)). replace (i + (n - i)) with n in * by lia. lia. Qed.
+
+Theorem peaks_correct n : 0 <= n < 2 ^ 63 ->
+  mm_get_peak_heights_and_peak_node_indices n = Some (spec_peak_heights n, spec_peak_node_indices n).
+Proof.
+  intros Hn. unfold mm_get_peak_heights_and_peak_node_indices.
+  destruct (Z.eqb_spec n 0) as [->|Hn0]; [reflexivity|].
+  unfold sub_ok at 1. destruct (Z.leb_spec 1 n) as [_|]; [|lia]. rewrite wsub64_small by (pow_lits; lia).
+  destruct (leaf_index_to_node_index_val (n - 1) ltac:(lia)) as [-> ->]. fold (ncount (n - 1)).
+  destruct (num_leafs_to_num_nodes_val n ltac:(lia)) as [-> ->]. fold (ncount n).
+  pose proof (ncount_lt (n - 1) n ltac:(lia)) as Hlt1. pose proof (ncount_nonneg (n - 1) ltac:(lia)) as Hnn.
+  pose proof (ncount_lt64 n Hn) as Hc64.
+  destruct (leftmost_ancestor_val (ncount (n - 1) + 1) ltac:(lia)) as (-> & H & HH & -> & Hr).
+  (* the top tree *)
+  pose proof (Z.log2_spec n ltac:(lia)) as Hl. pose proof (Z.log2_nonneg n) as Hlg0.
+  assert (Hl63 : Z.log2 n < 63) by (apply Z.log2_lt_pow2; lia).
+  set (a := Z.to_nat (Z.log2 n)).
+  assert (Ta : tleafs a = 2 ^ Z.log2 n) by (rewrite tleafs_pow; unfold a; rewrite Z2Nat.id by lia; reflexivity).
+  assert (Ha : tleafs a <= n < 2 * tleafs a).
+  { rewrite Ta. change (Z.succ (Z.log2 n)) with (Z.log2 n + 1) in Hl. rewrite pow2_succ in Hl by lia. lia. }
+  assert (Ha62 : (a <= 62)%nat) by (unfold a; lia).
+  pose proof (ncount_split a n Ha) as Hs. pose proof (tsize_pos a) as Hpa. pose proof (tleafs_pos a) as Hpl.
+  pose proof (tsize_lt64 (S a) ltac:(lia)) as HS64. rewrite tsize_S in HS64.
+  assert (F : forest n = PTree a 0 0 :: forest_from a (n - tleafs a) (0 + tsize a) (0 + tleafs a)).
+  { unfold forest. replace 64%nat with ((63 - a) + S a)%nat by lia.
+    rewrite forest_from_skip by (rewrite tleafs_S; lia). cbn [forest_from].
+    destruct (Z.leb_spec (tleafs a) n); [reflexivity|lia]. }
+  assert (P3 : 2 ^ (Z.of_nat a + 1) = tsize a + 1).
+  { replace (Z.of_nat a + 1) with (Z.of_nat (S a)) by lia. rewrite <- tleafs_pow, tleafs_S, tsize_tleafs. lia. }
+  assert (Top : (if tsize H >? ncount n then left_child (tsize H) (Z.of_nat H) else tsize H) = tsize a /\
+                (if tsize H >? ncount n then wsub 32 (Z.of_nat H) 1 else Z.of_nat H) = Z.of_nat a /\
+                (if tsize H >? ncount n then left_child_ok (tsize H) (Z.of_nat H) && sub_ok (Z.of_nat H) 1 else true) = true).
+  { destruct (Z.eq_dec n (tleafs a)) as [En|Hne].
+    - (* n is a power of two: one tree *)
+      assert (H = a) as ->.
+      { apply (height_interval_unique H a (ncount (n - 1) + 1)); [exact Hr|].
+        rewrite En. unfold ncount at 1 2. rewrite tleafs_pow, count_ones_ones, tsize_tleafs, tleafs_pow.
+        pose proof (tsize_ge_height a) as G. rewrite tsize_tleafs, tleafs_pow in G.
+        pose proof (pow2_pos (Z.of_nat a) ltac:(lia)). Show. lia. }
+      rewrite En, ncount_tleafs. rewrite Z.gtb_ltb, Z.ltb_irrefl. auto.
+    - assert (H = S a) as ->.
+      { apply (height_interval_unique H (S a) (ncount (n - 1) + 1)); [exact Hr|].
+        pose proof (ncount_mono (tleafs a) (n - 1) ltac:(lia)) as M. rewrite ncount_tleafs in M.
+        pose proof (ncount_lt_tsize (S a) n ltac:(rewrite tleafs_S; lia)).
+        rewrite tleafs_S, tsize_tleafs. rewrite tsize_tleafs in M. lia. }
+      pose proof (ncount_lt_tsize (S a) n ltac:(rewrite tleafs_S; lia)) as G.
+      rewrite Z.gtb_ltb. destruct (Z.ltb_spec (ncount n) (tsize (S a))); [|lia].
+      rewrite tsize_S.
+      assert (P2 : 2 ^ Z.of_nat (S a) = tsize a + 1) by (rewrite <- tleafs_pow, tleafs_S, tsize_tleafs; lia).
+      destruct (left_child_val (2 * tsize a + 1) (Z.of_nat (S a)) ltac:(lia) ltac:(lia)) as [-> ->].
+      rewrite P2. rewrite wsub32_small by (pow_lits; lia). unfold sub_ok.
+      split; [lia|]. split; [lia|]. destruct (Z.leb_spec 1 (Z.of_nat (S a))); [reflexivity|lia]. }
+  destruct Top as (-> & -> & ->).
+  destruct (right_sibling_val (tsize a) (Z.of_nat a) ltac:(lia) ltac:(lia) ltac:(lia)) as [-> ->].
+  rewrite P3. replace (tsize a + (tsize a + 1) - 1) with (tsize a + tsize a) by lia.
+  rewrite Hs.
+  rewrite (peaks_loop_spec a 65 (n - tleafs a) (tsize a) (0 + tleafs a)) by lia.
+  unfold spec_peak_heights, spec_peak_node_indices. rewrite F. cbn [map pt_height]. unfold pt_root at 2.
+  cbn [pt_height pt_offset]. rewrite !map_map. reflexivity.
 Qed.
